@@ -199,6 +199,9 @@ type ruleSet struct {
 	firstTouch bool
 	// ns: goroutine counts of this set's rounds (nil: the -ns flag)
 	ns []int
+	// sameFile > 0: all goroutines of a round check the SAME file at the same moment (a barrier in front of every step),
+	// every file sameFile times in a row, and an observer reads the trees meanwhile (decls.go)
+	sameFile int
 }
 
 var ruleSets = []ruleSet{
@@ -402,6 +405,7 @@ func checkTargets(dir string, scale int) ([]*target, error) {
 		allZoo: true, only: "mt", freshBase: true, perG: 4, firstTouch: true})
 	ruleSets = append(ruleSets, ruleSet{name: "natives-std", files: []string{"nativesstd.go"}, text: map[string]string{"nativesstd.go": nativesOut.rulesStd},
 		allZoo: true, only: "mt", perG: 3, firstTouch: true, ns: []int{16}})
+	addDeclsRuleSet()
 	err = checkMemTargets(dir, fset, imp, nativesOut.nDo, nativesOut.nFlt)
 	return base, err
 }
@@ -558,14 +562,14 @@ func runOnce(e *ruleguard.Engine, t *hutil.Target, st *ruleguard.RunnerState, yi
 }
 
 type mismatch struct {
-	K        string  `json:"k"`
-	RuleSet  string  `json:"ruleset"`
-	N        int     `json:"n"`
-	Phase    string  `json:"phase"`
-	G        int     `json:"goroutine"`
-	File     string  `json:"file"`
-	State    string  `json:"state"`
-	Seed     int64   `json:"seed"`
+	K        string    `json:"k"`
+	RuleSet  string    `json:"ruleset"`
+	N        int       `json:"n"`
+	Phase    string    `json:"phase"`
+	G        int       `json:"goroutine"`
+	File     string    `json:"file"`
+	State    string    `json:"state"`
+	Seed     int64     `json:"seed"`
 	Expected runResult `json:"expected"`
 	Observed runResult `json:"observed"`
 }
@@ -606,6 +610,9 @@ func explore(enc0 *json.Encoder, targets []*target, sets []int, ns []int, seed i
 	enc := &lockedEnc{enc: enc0}
 	deadline := time.Now().Add(budget)
 	fset := targets[0].t.Fset
+	// the trees as the parser delivered them: no Run may leave them (or show them to anybody) in another shape
+	snapshotTrees(targets)
+	defer finalTreeCheck(enc, targets)
 	var wg sync.WaitGroup
 	var keptMu sync.Mutex
 	var kept []keptEngine
@@ -853,6 +860,23 @@ func exploreRound(enc *lockedEnc, e *ruleguard.Engine, rs ruleSet, targets []*ta
 	runs, reports, panics := 0, 0, 0
 	stateModes := map[string]bool{}
 	t0 := time.Now()
+	// same-file rounds: one order for all goroutines, every file rs.sameFile times in a row, a barrier per step
+	var sameOrder []int
+	var barriers []*sync.WaitGroup
+	var observer *treeObserver
+	if rs.sameFile > 0 {
+		for _, ti := range rand.New(rand.NewSource(seed*17 + 3)).Perm(len(targets)) {
+			for k := 0; k < rs.sameFile; k++ {
+				sameOrder = append(sameOrder, ti)
+			}
+		}
+		for range sameOrder {
+			b := &sync.WaitGroup{}
+			b.Add(n)
+			barriers = append(barriers, b)
+		}
+		observer = startTreeObserver(targets, fmt.Sprintf("while %d goroutines check the file (rule set %s, %s round, seed %d)", n, rs.name, phase, seed))
+	}
 	for g := 0; g < n; g++ {
 		wg.Add(1)
 		go func(g int) {
@@ -861,6 +885,9 @@ func exploreRound(enc *lockedEnc, e *ruleguard.Engine, rs ruleSet, targets []*ta
 			order := rng.Perm(len(targets))
 			if perG > 0 && perG < len(order) {
 				order = order[:perG]
+			}
+			if sameOrder != nil {
+				order = sameOrder
 			}
 			mode := []string{"nil", "pool", "own"}[(g+int(seed))%3]
 			if mode == "nil" && rng.Intn(4) == 0 {
@@ -876,8 +903,12 @@ func exploreRound(enc *lockedEnc, e *ruleguard.Engine, rs ruleSet, targets []*ta
 				}
 			}
 			<-start
-			for _, ti := range order {
+			for step, ti := range order {
 				t := targets[ti]
+				if barriers != nil {
+					barriers[step].Done()
+					barriers[step].Wait()
+				}
 				var st *ruleguard.RunnerState
 				switch mode {
 				case "pool":
@@ -945,6 +976,13 @@ func exploreRound(enc *lockedEnc, e *ruleguard.Engine, rs ruleSet, targets []*ta
 	}
 	close(start)
 	wg.Wait()
+	if observer != nil {
+		seen, looks := observer.stop()
+		for _, f := range seen {
+			enc.Encode(f)
+		}
+		enc.Encode(astFinding{K: "ast-observer", File: rs.name, When: phase, Agree: len(seen) == 0, Looks: looks})
+	}
 	k1, _ := ruleguard.VerifTypeCache(e)
 	p1 := ruleguard.VerifPkgCache(e)
 	for i, m := range mism {
